@@ -168,4 +168,14 @@ PLAN = {
         quick=[dict(test="TestC15", cases=4800, shards=16, timeout=900)],
         thorough=[dict(test="TestC15", cases=160000, shards=16, timeout=3400, shrink=120)],
     ),
+    "C17": dict(
+        level="exploration",
+        rule=("block histories (the C07 alphabet, <= 45 operations quick / 90 thorough, on fresh chains with 1-2 bridge chains and 2-4 oracles each): oracle claims with deferred execution, sends, batches, bridge calls, per-oracle confirmations, oracle-list updates, governance proposals of ten kinds with votes by a large delegator and by validator operators, erc20 conversions, account migration with delegation and unbonding, "
+              "signed EVM transactions (crossChain with ERC-20 and with native value, staking delegateV2, token transfer) and signed Cosmos transactions included in blocks, absent validators, time jumps of 5 s .. 22 days, real FinalizeBlock + Commit. Every history is executed on 3 replicas quick / 4 thorough: fresh chains in the generating process plus one in a re-executed child process with GOMAXPROCS=1, another TZ and GOGC "
+              "(wall clock differs by construction; Go randomises every map range, so each replica has its own map orders). Oracle: per block equal application hash, FinalizeBlock response hash, transaction results (code, codespace, gas, data, log, events) and ordered event list; equal outcome, data and events of every operation applied to the block being built. "
+              "non-trivial = >= 3 blocks and a batch, bridge call, validator-operator vote, migration or ended proposal in the history"),
+        assumptions=["a dependence that shows with probability p per replica is detected with probability 1-(1-p)^k for k extra replicas only", "operations that cannot travel in transactions on this snapshot (oracle claims) are applied to the block being built through the real handlers, identically on every replica"],
+        quick=[dict(test="TestC17", cases=480, shards=16, timeout=900)],
+        thorough=[dict(test="TestC17", cases=8000, shards=16, timeout=3400, shrink=120)],
+    ),
 }
